@@ -60,7 +60,7 @@ class TypeParser:
         # the cursor lives in a per-call copy: checks translate functions on several threads
         import copy
         inst = copy.copy(self)
-        inst.toks = tokenize(s)
+        inst.toks = tokenize(s.replace('(anonymous namespace)', 'ANON_NS_').replace('(anonymous)', 'ANON_NS_'))
         inst.i = 0
         t = inst._type()
         if inst.i != len(inst.toks):
@@ -152,7 +152,7 @@ class TypeParser:
         return base
 
     def _named(self, parts):
-        plain = '::'.join(p if isinstance(p, str) else p[0] for p in parts)
+        plain = '::'.join(p if isinstance(p, str) else p[0] for p in parts).replace('ANON_NS_', '(anonymous namespace)')
         last = parts[-1]
         targs = last[1] if isinstance(last, tuple) else None
         # template args on a non-last component (e.g. std::vector<T>::size_type)
